@@ -140,6 +140,9 @@ void run_algo(unsigned algo, It first, It last, std::vector<M>& mv, It2 first2, 
 	(void)ctx;
 }
 
+template<int D, class W, std::size_t... I>
+decltype(auto) c03_rebased(W& w0, Model const& m, std::index_sequence<I...> /*unused*/) { return w0.reindexed(static_cast<multi::index>(m.d[I].first)...); }
+
 template<class Cfg>
 struct Fin {
 	int* root; long N; Ctx& ctx; Input const& in;
@@ -171,7 +174,9 @@ struct Fin {
 		vp::ops::Val sec; sec.ext.resize(static_cast<std::size_t>(D)); for(int k = 0; k < D; ++k) { sec.ext[static_cast<std::size_t>(k)] = m.d[static_cast<std::size_t>(k)].size; }
 		sec.v.resize(static_cast<std::size_t>(nel)); for(long j = 0; j < nel; ++j) { sec.v[static_cast<std::size_t>(j)] = static_cast<int>((j*5 + q) % 16U); }
 		int const kind = 2 + static_cast<int>((in.head(14) % 5U));  // K_VIEW .. K_STRIDED
-		auto with_second = [&](auto&& body) {  // over a fancy-pointer configuration the second range lives in storage of the same family (bit set) or over raw pointers
+		auto with_second = [&](auto&& body0) {
+			// on re-based roots the second range is given the first range's index bases (rows of different extensions cannot be assigned or swapped)
+			auto body = [&](auto& w0) { if constexpr(Cfg::based) { auto&& wb = c03_rebased<D>(w0, m, std::make_index_sequence<static_cast<std::size_t>(D)>{}); body0(wb); } else { body0(w0); } };  // over a fancy-pointer configuration the second range lives in storage of the same family (bit set) or over raw pointers
 			if constexpr(Fancy) { if((in.head(11) & 4U) != 0) { ctx.label("second_range_same_pointer_family"); vp::ops::with_operand_a<D, int, true, Cfg::template alloc>(sec, kind, body); return; } ctx.label("second_range_raw_pointer"); }
 			vp::ops::with_operand<D, int, true>(sec, kind, body);
 		};
@@ -190,8 +195,8 @@ struct Fin {
 				for(long i = 0; i < rows; ++i) { for(long j = 0; j < cols; ++j) { mv[static_cast<std::size_t>(i)].push_back(before[static_cast<std::size_t>(pos[static_cast<std::size_t>(i*cols + j)])]); mv2[static_cast<std::size_t>(i)].push_back(sec.v[static_cast<std::size_t>(i*cols + j)]); } }
 				auto rb = [&]() { std::vector<Row> r(static_cast<std::size_t>(rows)); for(long i = 0; i < rows; ++i) { for(long j = 0; j < cols; ++j) { r[static_cast<std::size_t>(i)].push_back(root[pos[static_cast<std::size_t>(i*cols + j)]]); } } return r; };
 				auto rb2 = [&]() { std::vector<Row> r(static_cast<std::size_t>(rows)); long k = 0; for(auto const& e : w.elements()) { r[static_cast<std::size_t>(k / std::max<long>(cols, 1))].push_back(e); ++k; } return r; };
-				std::vector<long> sube; for(int k = 1; k < D; ++k) { sube.push_back(m.d[static_cast<std::size_t>(k)].size); }
-				auto to_array = [&](Row const& r) { multi::array<int, D - 1, typename Cfg::template alloc<int>> a(vp::ops::make_ext<D - 1>(sube.data())); std::copy(r.begin(), r.end(), a.elements().begin()); return a; };
+				std::vector<long> sube, subf; for(int k = 1; k < D; ++k) { sube.push_back(m.d[static_cast<std::size_t>(k)].size); subf.push_back(m.d[static_cast<std::size_t>(k)].first); }
+				auto to_array = [&](Row const& r) { multi::array<int, D - 1, typename Cfg::template alloc<int>> a(vp::ops::make_ext<D - 1>(sube.data())); if constexpr(Cfg::based) { if constexpr(D == 2) { a.reindex(static_cast<multi::index>(subf[0])); } else { a.reindex(static_cast<multi::index>(subf[0]), static_cast<multi::index>(subf[1])); } } std::copy(r.begin(), r.end(), a.elements().begin()); return a; };
 				run_algo<decltype(v.begin()), Row>(algo, v.begin(), v.end(), mv, w.begin(), mv2, p, q, ctx, to_array, rb, rb2);
 			}
 		});
@@ -207,14 +212,14 @@ struct Fin {
 
 template<int D, class Cfg = vp::CfgRaw>
 void run_d(Input const& in, Ctx& ctx) {
-	auto r = vp::decode_root<D, false>(in, ctx);
+	auto r = vp::decode_root<D, Cfg::based>(in, ctx);
 	r.kind = (r.kind % 3 == 0) ? vp::RK_ARRAY : (r.kind % 3 == 1 ? vp::RK_STATIC : vp::RK_REF);
 	vp::with_root<Cfg, int, D, true>(r, [&](auto& root, Model m, int const* base, long N) {
 		auto* wbase = const_cast<int*>(base);
 		unsigned s = in.head(9);
 		for(long i = 0; i < N; ++i) { s = s*1103515245U + 12345U; wbase[i] = static_cast<int>((s >> 16U) % 16U); }  // small alphabet: 4 keys x 4 tags, duplicates are the point
 		Fin<Cfg> fin{wbase, N, ctx, in};
-		vp::Interp<Fin<Cfg>, false, 3, false, true> interp(in, ctx, fin);
+		vp::Interp<Fin<Cfg>, Cfg::based, 3, false, true> interp(in, ctx, fin);
 		interp.null_root = (N == 0); interp.no_const = true;
 		vp::check_shape(root, m, "construction");
 		interp.step(root, m);
